@@ -888,6 +888,12 @@ func (p *Plan) Run(tr *Trace) {
 			if p.advance(p.Idle) {
 				idle++
 				if idle > p.MaxIdle {
+					if !c0.started {
+						// nothing moves any more without Close (operations waiting for the instance): close now
+						p.startClose(tr, 0)
+						idle = 0
+						continue
+					}
 					break
 				}
 			}
